@@ -538,3 +538,54 @@ theorem sortBy'_perm {α : Type} (le : α → α → Bool) (l : List α) : (sort
   | cons x xs ih => exact (insertBy_perm le x _).trans (List.Perm.cons x ih)
 
 end DfModel
+
+namespace DfModel
+
+/-- inserting into a sorted list keeps it sorted (for an order that is total and transitive on the
+    elements satisfying `S`) -/
+theorem insertBy_sorted {α : Type} (le : α → α → Bool) (S : α → Prop)
+    (htot : ∀ a b, S a → S b → le a b = true ∨ le b a = true)
+    (htr : ∀ a b c, S a → S b → S c → le a b = true → le b c = true → le a c = true)
+    (x : α) (l : List α) (hx : S x) (hl : ∀ y ∈ l, S y) (hs : l.Pairwise (fun a b => le a b = true)) :
+    (insertBy le x l).Pairwise (fun a b => le a b = true) := by
+  induction l with
+  | nil => simp [insertBy]
+  | cons y ys ih =>
+    have hy : S y := hl y (by simp)
+    have hys : ∀ z ∈ ys, S z := fun z hz => hl z (by simp [hz])
+    rw [List.pairwise_cons] at hs
+    simp only [insertBy]
+    split
+    · rename_i hxy
+      rw [List.pairwise_cons]
+      refine ⟨?_, List.pairwise_cons.mpr hs⟩
+      intro z hz
+      rcases List.mem_cons.mp hz with rfl | hz
+      · exact hxy
+      · exact htr x y z hx hy (hys z hz) hxy (hs.1 z hz)
+    · rename_i hxy
+      rw [List.pairwise_cons]
+      refine ⟨?_, ih hys hs.2⟩
+      intro z hz
+      have hz' : z ∈ x :: ys := (insertBy_perm le x ys).mem_iff.mp hz
+      rcases List.mem_cons.mp hz' with rfl | hz'
+      · rcases htot z y hx hy with h | h
+        · exact absurd h hxy
+        · exact h
+      · exact hs.1 z hz'
+
+/-- insertion sort produces a sorted list -/
+theorem sortBy'_sorted {α : Type} (le : α → α → Bool) (S : α → Prop)
+    (htot : ∀ a b, S a → S b → le a b = true ∨ le b a = true)
+    (htr : ∀ a b c, S a → S b → S c → le a b = true → le b c = true → le a c = true)
+    (l : List α) (hl : ∀ y ∈ l, S y) : (sortBy' le l).Pairwise (fun a b => le a b = true) := by
+  induction l with
+  | nil => simp [sortBy']
+  | cons x xs ih =>
+    simp only [sortBy']
+    apply insertBy_sorted le S htot htr x _ (hl x (by simp))
+    · intro y hy
+      exact hl y (by simp [(sortBy'_perm le xs).mem_iff.mp hy])
+    · exact ih (fun y hy => hl y (by simp [hy]))
+
+end DfModel
